@@ -109,7 +109,18 @@ func Variants(msaIn io.Reader, stdin bool, refID string, annoIn io.Reader, annoS
 		case err := <-cErr:
 			return err
 		case <-cMSADone:
-			return errors.New("is the pipe to --msa empty?") // TO DO - does this work/is this necessary?
+			// a short alignment fits in cMSA's buffer, so the reader may already have finished when we
+			// get here: the pipe was only empty if there is no record waiting either
+			select {
+			case ref = <-cMSA:
+				if ref.ID != refID {
+					return errors.New("--reference is not the first record in --msa")
+				}
+				firstmissing = true
+				go func() { cMSADone <- true }() // pass the signal on to the loop that waits for it below
+			default:
+				return errors.New("is the pipe to --msa empty?") // TO DO - does this work/is this necessary?
+			}
 		}
 	}
 
